@@ -3,10 +3,13 @@
 (A) Settings machine, exhaustive over the option table of both commands: every option registered in phonopy_argparse
 (completeness enforced against the parser itself) is given representative values including zero; the configuration
 tag it feeds is learnt from the parser, and the settings object built from the option must equal the one built from
-a configuration file carrying that tag with the same text; pairs of options are combined (interaction bound 2).
+a configuration file carrying that tag with the same text; pairs of options are combined (interaction bound 2), both as
+options, both as tags, and MIXED (one in the file, the other on the command line, both orientations).
 (B) Workflows run in-process (phonopy / phonopy-load main): displacements, FORCE_SETS (-f, --fz), mesh, band, q-points,
 DOS/PDOS, thermal properties, thermal displacements, write/read force constants, NAC, phonopy.yaml reload; every
-output file is parsed and compared with the corresponding library call to the printed precision.
+output file is parsed and compared with the corresponding library call to the printed precision; every workflow runs on
+a cubic and on a triclinic system; masses by option/tag incl. reload of the summary file; two-step histories in which the
+yaml of the first step records another primitive matrix than the second step asks for (all 4x4 combinations, option and tag).
 """
 from __future__ import annotations
 
